@@ -7,6 +7,7 @@ import (
 	"math/big"
 	"reflect"
 	"sort"
+	"unsafe"
 
 	multiproof "github.com/crate-crypto/go-ipa"
 	"github.com/crate-crypto/go-ipa/bandersnatch"
@@ -116,6 +117,21 @@ type arena struct {
 	IPAProof ipa.IPAProof
 	IPAEval fr.Element
 	IPARes  fr.Element
+	// caller-owned opening lists (statements), passed to the prover as they are
+	Stmts []*c13stmt
+	// backing arrays: polynomials and proof points are carved out of shared arrays with spare
+	// capacity behind every slice, the way an application arena would do it, so that an
+	// append into "free" capacity lands in a neighbour and shows up in the fingerprint
+	PolyBack  []fr.Element
+	ProofBack []banderwagon.Element
+}
+
+type c13stmt struct {
+	Label string
+	Cs    []*banderwagon.Element
+	Fs    [][]fr.Element
+	Zs    []uint8
+	Ys    []*fr.Element
 }
 
 func buildArena(seed uint64) *arena {
@@ -123,8 +139,14 @@ func buildArena(seed uint64) *arena {
 	r := NewRng(seed, 0, "arena")
 	_, poolP := env.Pool()
 	a := &arena{}
+	a.PolyBack = make([]fr.Element, (nPolys+1)*256)
+	a.ProofBack = make([]banderwagon.Element, (nProofs+2)*16)
+	for i := range a.ProofBack {
+		a.ProofBack[i] = banderwagon.Identity
+	}
 	for i := 0; i < nPolys; i++ {
-		f := sparsePoly(r)
+		f := a.PolyBack[i*256 : (i+1)*256] // capacity reaches into the next polynomial
+		copy(f, sparsePoly(r))
 		if i == 0 {
 			for j := range f {
 				f[j] = FrFromBig(r.Scalar())
@@ -176,6 +198,12 @@ func buildArena(seed uint64) *arena {
 		if err != nil {
 			panic(err)
 		}
+		// re-home the proof's points into the shared backing array |L0|R0|L1|R1|...
+		L := a.ProofBack[16*k : 16*k+8]
+		R := a.ProofBack[16*k+8 : 16*k+16]
+		copy(L, p.IPA.L)
+		copy(R, p.IPA.R)
+		p.IPA.L, p.IPA.R = L, R
 		a.Proofs = append(a.Proofs, p)
 		var b bytes.Buffer
 		p.Write(&b)
@@ -188,7 +216,36 @@ func buildArena(seed uint64) *arena {
 	if err != nil {
 		panic(err)
 	}
+	{
+		L := a.ProofBack[16*nProofs : 16*nProofs+8]
+		R := a.ProofBack[16*nProofs+8 : 16*nProofs+16]
+		copy(L, ip.L)
+		copy(R, ip.R)
+		ip.L, ip.R = L, R
+	}
 	a.IPAProof = ip
+	// opening lists owned by the caller: deliberately NOT sorted by evaluation index, repeated
+	// indices, repeated commitments
+	for k := 0; k < 3; k++ {
+		st := &c13stmt{Label: genLabel(r)}
+		n := 2 + k
+		for i := 0; i < n; i++ {
+			pi := (k + 2*i + i*i) % nPolys
+			z := a.Zs[(k+3*i)%nPolys]
+			if i == n-1 {
+				z = st.Zs[0] // shares its evaluation index with the first opening
+			}
+			if i == 1 {
+				z = uint8(int(st.Zs[0]) * 7 / 8) // smaller than its predecessor unless that is 0
+			}
+			st.Cs = append(st.Cs, a.Commits[pi])
+			st.Fs = append(st.Fs, a.Polys[pi])
+			st.Zs = append(st.Zs, z)
+			y := a.Polys[pi][z]
+			st.Ys = append(st.Ys, &y)
+		}
+		a.Stmts = append(a.Stmts, st)
+	}
 	bc := cfg.PrecomputedWeights.ComputeBarycentricCoefficients(a.IPAEval)
 	a.IPARes, _ = ipa.InnerProd(a.Polys[0], bc)
 	return a
@@ -212,7 +269,22 @@ func (a *arena) print() arenaPrint {
 		p.values = append(p.values, e.Bytes())
 	}
 	a.Commits, a.Elems = nil, nil
-	p.strict = Fingerprint(a)
+	// the statements' commitment lists hold the same pointers: keep their order (identity of
+	// the pointers) in the strict part, their pointees in the value part
+	saveCs := make([][]*banderwagon.Element, len(a.Stmts))
+	var order []uintptr
+	for i, st := range a.Stmts {
+		saveCs[i] = st.Cs
+		for _, c := range st.Cs {
+			order = append(order, uintptr(unsafe.Pointer(c)))
+		}
+		order = append(order, 0)
+		st.Cs = nil
+	}
+	p.strict = Fingerprint(a) ^ mix(Fingerprint(&order))
+	for i, st := range a.Stmts {
+		st.Cs = saveCs[i]
+	}
 	a.Commits, a.Elems = saveC, saveE
 	return p
 }
@@ -329,11 +401,17 @@ func doCall(a *arena, c C13Call) (out string, failed bool) {
 		var Cs []*banderwagon.Element
 		var fs [][]fr.Element
 		var zs []uint8
-		for i := 0; i < n; i++ {
-			k := pick(nPolys, c.A+i*(1+c.B%3))
-			Cs = append(Cs, a.Commits[k])
-			fs = append(fs, a.Polys[k])
-			zs = append(zs, a.Zs[pick(nPolys, c.B+i)])
+		if c.Flag || c.Kind != "prove" {
+			for i := 0; i < n; i++ {
+				k := pick(nPolys, c.A+i*(1+c.B%3))
+				Cs = append(Cs, a.Commits[k])
+				fs = append(fs, a.Polys[k])
+				zs = append(zs, a.Zs[pick(nPolys, c.B+i)])
+			}
+		} else {
+			// the caller's own opening lists, handed over as they are
+			st := a.Stmts[pick(len(a.Stmts), c.A)]
+			Cs, fs, zs = st.Cs, st.Fs, st.Zs
 		}
 		switch c.Kind {
 		case "fail-prove-len":
